@@ -33,8 +33,27 @@ def run_check(prop: str, tier: str, seed: int, overlay=None, write_evidence=True
     prog = Program(root=root or os.environ.get("KVERIF_SRC", "/repo/src"), overlay=overlay)
     results = mod.run(prog, tier)
     extra = {}
-    if tier == "thorough" and hasattr(mod, "thorough_extra"):
-        extra = mod.thorough_extra(prog, seed) or {}
+    if tier == "thorough":
+        # deeper tier: the same rules on /repo's tree (deciding step), plus the checker's own
+        # two-way validation on in-memory variants of the *current* tree
+        from . import selftest
+
+        cases = selftest.load_cases(prop)
+        res = selftest.run_cases(cases) if cases else []
+        s = selftest.summary(res)
+        extra = {
+            "selftest": {
+                "seeded_mutants": s["mutants"],
+                "killed": s["killed"],
+                "equivalent_rewrites": s["rewrites"],
+                "kept_silent": s["silent"],
+                "stale_cases": s["stale"],
+                "missed": s["missed"],
+                "false_alarms": s["false_alarms"],
+            }
+        }
+        if hasattr(mod, "thorough_extra"):
+            extra.update(mod.thorough_extra(prog, seed) or {})
     units = dict(prog.stats())
     units["rule_modules"] = [mod.__name__]
     return report.finish(
